@@ -99,3 +99,18 @@ Fixpoint run (s : fs) (ps : list proc) : list obs :=
   end.
 (* the same process on an empty cache *)
 Definition fresh_obs (p : proc) : obs := (p_who p, true).
+
+(* for the correspondence: what is in the cache directory after each process (ordinary bytecode present?, number of
+   instrumented bytecode files, number of node tables), over the given candidate names *)
+Definition is_some {A} (o : option A) : bool := match o with Some _ => true | None => false end.
+Definition summary (s : fs) (names : list name) : bool * nat * nat :=
+  (is_some (pyc s []), length (filter (fun nm => is_some (pyc s nm)) names), length (filter (fun nm => is_some (pkl s nm)) names)).
+Definition tinfo_eq_dec : forall a b : tinfo, {a = b} + {a <> b}.
+Proof. repeat decide equality. Defined.
+Definition who_eqb (a b : who) : bool := if list_eq_dec tinfo_eq_dec a b then true else false.
+Fixpoint run_trace (s : fs) (ps : list proc) (names : list name) : list (bool * (bool * nat * nat)) :=
+  match ps with
+  | [] => []
+  | p :: ps' => let '(s', o) := step s p in
+                (snd o && who_eqb (fst o) (p_who p), summary s' names) :: run_trace s' ps' names
+  end.
